@@ -517,8 +517,8 @@ def describe(m):
 
 
 def correspondence(ctx):
-    nseq = 2400 if ctx.quick else 40000
-    npred = 1600 if ctx.quick else 24000
+    nseq = 2400 if ctx.quick else 24000
+    npred = 1600 if ctx.quick else 16000
     groups = build_groups(ctx, nseq, npred)
     ctx.log("running implementation on", nseq, "sequences,", npred, "predicate cases")
     results = ctx.run_impl("c11_impl", {"groups": groups})["groups"]
@@ -557,7 +557,7 @@ def correspondence(ctx):
 
 def audit(ctx):
     rng = ctx.rng
-    nseq = 1200 if ctx.quick else 20000
+    nseq = 1200 if ctx.quick else 12000
     seqs = []
     for j in range(nseq):
         s = gen_seq(rng, getters=False)
